@@ -238,6 +238,29 @@ fn one<const D: usize>(hid: usize, rng: &mut Rng, out: &mut Out) {
     roundtrip(&format!("s{D}_{hid}"), &mut w, ps.gp && ps.family == "general" && !perturbed, rng, out);
 }
 
+/// round trips of cell-less triangulations: bootstrap phase (1..=D vertices) and emptied by removal
+fn cellless<const D: usize>(hid: usize, rng: &mut Rng, out: &mut Out) {
+    let pts = gens::to_f(&gens::general_position(rng, D, D + 1, 7), 1.0, 0.0);
+    let k = 1 + rng.below(D as u64) as usize;
+    let mut w: World<D> = hist::start_empty::<D>(1);
+    for p in pts.iter().take(k) { let _ = w.do_insert(gens::arr::<D>(p), false, rng); }
+    if w.dt.number_of_cells() == 0 && w.dt.number_of_vertices() > 0 {
+        roundtrip(&format!("sb{D}_{hid}"), &mut w, true, rng, out);
+    }
+    // full simplex, then one vertex removed again: vertices but no cells
+    let mut w2: World<D> = hist::start_empty::<D>(1);
+    for p in pts.iter().take(D + 1) { let _ = w2.do_insert(gens::arr::<D>(p), false, rng); }
+    if w2.dt.number_of_cells() > 0 {
+        let keys = w2.live_keys();
+        let vk = *rng.pick(&keys);
+        let _ = w2.do_remove(Some(vk), rng);
+        if w2.dt.number_of_cells() == 0 && w2.dt.number_of_vertices() > 0 {
+            w2.had_removal = false; // the follow-up insertions are the point of this case
+            roundtrip(&format!("se{D}_{hid}"), &mut w2, true, rng, out);
+        }
+    }
+}
+
 pub fn run(cfg: &Cfg, rng: &mut Rng, out: &mut Out) {
     let thorough = cfg.tier == "thorough";
     let n = if thorough { 60 } else { 16 };
@@ -246,5 +269,11 @@ pub fn run(cfg: &Cfg, rng: &mut Rng, out: &mut Out) {
         one::<3>(h, rng, out);
         one::<4>(h, rng, out);
         one::<5>(h, rng, out);
+    }
+    for h in 0..(if thorough { 12 } else { 3 }) {
+        cellless::<2>(h, rng, out);
+        cellless::<3>(h, rng, out);
+        cellless::<4>(h, rng, out);
+        cellless::<5>(h, rng, out);
     }
 }
